@@ -108,6 +108,11 @@ pub fn shrink_spec(s: &SourceSpec) -> Vec<SourceSpec> {
     out
 }
 
+/// byte-at-a-time delivery: the fragmentation under which most delivery bugs still show after the stream shrank
+pub fn ones_spec(s: &SourceSpec) -> SourceSpec {
+    SourceSpec { trace: (0..512).map(|_| Ev::Give(1)).collect(), fault: s.fault }
+}
+
 pub fn shrink_payload(p: &[u8]) -> Vec<Vec<u8>> {
     let mut out = Vec::new();
     if p.is_empty() {
